@@ -87,6 +87,8 @@ pub fn generate(rng: &mut Rng, tier: Tier, emit: &mut dyn FnMut(String)) {
     // 6. the pool keeps working through the remaining connections (first: real-time cases, kept apart from the
     // multi-thread race cases at the end so that they land in different chunks of the runner)
     crate::c10_pool::generate(rng, quick, emit);
+    // 7. one request of a metadata fetch on the control connection meets a fault (real Session, mock cluster)
+    crate::c10_meta::generate(rng, quick, emit);
     // 1. frame streams cut at every offset
     for _ in 0..(if quick { 600 } else { 8000 }) {
         let frames = random_frames(rng);
@@ -870,6 +872,7 @@ pub fn run(case: &str, ctx: &mut Ctx) -> String {
         Some("rp") if w.len() == 2 => crate::c10_pool::run_rp(w[1], "", ctx),
         Some("poolr") if w.len() == 2 => crate::c10_pool::run_poolr(w[1], ctx),
         Some("poolk") if w.len() == 2 => crate::c10_pool::run_poolk(w[1], ctx),
+        Some("metaf") if w.len() == 4 => crate::c10_meta::run(w[1], w[2], w[3], ctx),
         Some("race") if w.len() == 3 => match w[2].parse::<u64>() {
             Ok(seed) => run_race(w[1], seed, ctx),
             Err(_) => "bad-case".to_owned(),
